@@ -136,8 +136,9 @@ def eval_case(case, res: core.ShardResult | None = None, kf=None, budget: int = 
                 return []
     lv = None
     if ref is not None and not (feats & DYNAMIC):
-        idx = [i for i, u in enumerate(ref.used) if u]
-        lv = (idx[-1] + 1) if idx else None
+        # (a RESERVED parameter carries no value but is a described parameter: the PDU must reach its end)
+        idx = [i for i, u in enumerate(ref.used) if u] + list(getattr(ref, "reserved", []))
+        lv = (max(idx) + 1) if idx else None
     # an end-of-pdu field of fixed-size items at the end of an otherwise static message: a PDU that ends inside
     # an item ends "before the last described parameter" of that item
     eopf_tail = None
